@@ -1,11 +1,11 @@
 package main
 
 import (
-	"go/types"
 	"crypto/sha256"
 	"encoding/json"
 	"flag"
 	"fmt"
+	"go/types"
 	"os"
 	"path/filepath"
 	"sort"
@@ -168,7 +168,7 @@ func generate(w *World, cs *Contracts, ms *ModSets, o runOpts) ([]*Obligation, [
 			fatal = append(fatal, err.Error())
 			// a contract that no longer resolves against the code is reported as a failed obligation
 			obls = append(obls, &Obligation{Name: key + ":translate", Kind: "translate", Func: key, Goal: "false", Props: spec.Props,
-				Text: "the contract resolves against the code and the body is inside the supported subset",
+				Text:   "the contract resolves against the code and the body is inside the supported subset",
 				Result: &SolveResult{Status: "error", Output: err.Error()}})
 			continue
 		}
@@ -320,6 +320,47 @@ func generate(w *World, cs *Contracts, ms *ModSets, o runOpts) ([]*Obligation, [
 			if len(nondet) > 0 {
 				ob2.Result = &SolveResult{Status: "sat", Backend: "table-evaluator", Output: strings.Join(nondet, "; ")}
 			}
+		}
+		obls = append(obls, ob, ob2)
+		rep.Obligations = 2
+	}
+	for _, cd := range cs.ConstMaps {
+		if !hasProp(cd.Props, o.property) || o.only != "" {
+			continue
+		}
+		name := cd.Pkg + "." + cd.Var
+		rep := &FuncReport{Key: name + " (constant table)"}
+		reps = append(reps, rep)
+		ob := &Obligation{Name: name + ":constmap.literal", Kind: "table", Func: name, Goal: "true", Props: cd.Props,
+			Text:   "the map literal initialising " + cd.Var + " is exactly: " + cd.Text,
+			Result: &SolveResult{Status: "unsat", Backend: "table-evaluator"}}
+		got, err := evalConstMap(w, cd)
+		if err != nil {
+			ob.Result = &SolveResult{Status: "error", Output: err.Error()}
+		} else {
+			var bad []string
+			for k, v := range cd.Entries {
+				if gv, ok := got[k]; !ok {
+					bad = append(bad, fmt.Sprintf("missing key %q", k))
+				} else if gv != v {
+					bad = append(bad, fmt.Sprintf("%q is %s, documented %s", k, gv, v))
+				}
+			}
+			for k := range got {
+				if _, ok := cd.Entries[k]; !ok {
+					bad = append(bad, fmt.Sprintf("undocumented key %q", k))
+				}
+			}
+			sort.Strings(bad)
+			if len(bad) > 0 {
+				ob.Result = &SolveResult{Status: "sat", Backend: "table-evaluator", Output: strings.Join(bad, "; ")}
+			}
+		}
+		ob2 := &Obligation{Name: name + ":constmap.readonly", Kind: "table", Func: name, Goal: "true", Props: cd.Props,
+			Text:   cd.Var + " is never written outside package initialisation",
+			Result: &SolveResult{Status: "unsat", Backend: "ssa-scan"}}
+		if ws := constMapWriters(w, cd); len(ws) > 0 {
+			ob2.Result = &SolveResult{Status: "sat", Backend: "ssa-scan", Output: "written by " + strings.Join(ws, ", ")}
 		}
 		obls = append(obls, ob, ob2)
 		rep.Obligations = 2
